@@ -274,3 +274,12 @@ def check(program: Program, run: Run) -> None:
     run.ob("C17/R3 traversal of a child is unconditional", "all nodes_ definitions", True, detail=f"{nt} nested nodes_() calls examined", nontrivial=False)
     if nt < 25:
         raise AnalysisError(f"instance count below floor: nested nodes_ calls {nt}")
+
+    # a memoised hash (or hash key) travels with every shallow copy: a term re-targeted by a builder method keeps the hash
+    # of the term it was copied from
+    from ..families import memo_methods
+    for f7, deco in memo_methods(program):
+        c7 = f7.cls
+        if c7 is not None and c7.resolve("__hash__") is not None and f7.name in ast.unparse(c7.resolve("__hash__").node):
+            run.finding(f"C17/memoised-hash:{f7.qualname}", f"{c7.qualname}.__hash__ returns {f7.name}, a {deco}: copies made by @builder methods (replace_table, as_) inherit the hash computed for the original, "
+                        "so objects that compare equal to a freshly built one hash differently", where=f7.loc(), rule="R1")
